@@ -1547,18 +1547,20 @@ func checkNoTrailingDot(c *Ctx, p *core.Prog, ct *ssa.Function) {
 		}
 		n++
 		v := ret.Results[0]
-		ok = false
-		for _, f := range core.FactsAt(b) {
-			if call, isCall := f.Cond.(*ssa.Call); isCall && !f.Truth && core.StaticCalleeName(&call.Call) == "strings.HasSuffix" && call.Call.Args[0] == v {
-				if s, isS := core.ConstString(call.Call.Args[1]); isS && s == "." {
-					ok = true
+		for _, sfx := range []struct{ s, name, why string }{
+			{".", "a dot", "a number can keep a trailing dot (e.g. \"2.0.\" from \"2.0..\"): Normalize writes it out and re-tokenising the normalised text strips one more dot, so Match(Normalize(x)) sees a different token than Match(x)"},
+			{"-", "a hyphen", "a number can keep a trailing hyphen (\"1)-a.\" is cleaned to \"1-\"): when it is the last word of its line, Normalize writes \"1-\" and a line break, which is tokenised again as a word hyphenated across the line break - the next word is swallowed"},
+		} {
+			ok = noTrailingValue(v, sfx.s, 0)
+			for _, f := range core.FactsAt(b) {
+				if call, isCall := f.Cond.(*ssa.Call); isCall && !f.Truth && core.StaticCalleeName(&call.Call) == "strings.HasSuffix" && call.Call.Args[0] == v {
+					if s, isS := core.ConstString(call.Call.Args[1]); isS && s == sfx.s {
+						ok = true
+					}
 				}
 			}
+			c.R.Check(ok, "R11.4", "cleanupToken: a number token cannot end in "+sfx.name, p.Pos(ret.Pos()), "returned only once strings.HasSuffix(res, \""+sfx.s+"\") is false", sfx.why)
 		}
-		if noTrailingDotValue(v, 0) {
-			ok = true
-		}
-		c.R.Check(ok, "R11.4", "cleanupToken: a number token cannot end in a dot", p.Pos(ret.Pos()), "returned only once strings.HasSuffix(res, \".\") is false", "a number can keep a trailing dot (e.g. \"2.0.\" from \"2.0..\"): Normalize writes it out and re-tokenising the normalised text strips one more dot, so Match(Normalize(x)) sees a different token than Match(x)")
 	}
 	c.R.RequireMin("R11.4", "returns of the number branch of cleanupToken", n, 1)
 }
@@ -2206,7 +2208,7 @@ func checkRunDetectorQ(c *Ctx, p *core.Prog) {
 
 // noTrailingDotValue: v cannot end in ".": strings.TrimRight(x, "."), a value returned under a failed
 // strings.HasSuffix(v, ".") test, or the result of an in-repo function all of whose returns are such values.
-func noTrailingDotValue(v ssa.Value, depth int) bool {
+func noTrailingValue(v ssa.Value, sfx string, depth int) bool {
 	if depth > 3 {
 		return false
 	}
@@ -2215,7 +2217,7 @@ func noTrailingDotValue(v ssa.Value, depth int) bool {
 		return false
 	}
 	if core.StaticCalleeName(&call.Call) == "strings.TrimRight" {
-		if s, isS := core.ConstString(call.Call.Args[1]); isS && strings.Contains(s, ".") {
+		if s, isS := core.ConstString(call.Call.Args[1]); isS && strings.Contains(s, sfx) {
 			return true
 		}
 		return false
@@ -2232,10 +2234,10 @@ func noTrailingDotValue(v ssa.Value, depth int) bool {
 		}
 		n++
 		rv := ret.Results[0]
-		good := noTrailingDotValue(rv, depth+1)
+		good := noTrailingValue(rv, sfx, depth+1)
 		for _, fct := range core.FactsAt(b) {
 			if hc, isC := fct.Cond.(*ssa.Call); isC && !fct.Truth && core.StaticCalleeName(&hc.Call) == "strings.HasSuffix" && hc.Call.Args[0] == rv {
-				if s, isS := core.ConstString(hc.Call.Args[1]); isS && s == "." {
+				if s, isS := core.ConstString(hc.Call.Args[1]); isS && s == sfx {
 					good = true
 				}
 			}
